@@ -6,6 +6,27 @@ props = [json.loads(l) for l in open("/verif/properties.jsonl")]
 NA = {
     "C17": "boundedness / monotonicity of the stress, temperature, canopy and CO2 response functions over continuous arguments is a numerical fact about compositions of exp/log/power; no sound static abstract domain in reach proves it and no clause of it is visible in the shape of the code beyond the divisor pre-conditions already checked under C05.b / C16.c (static analysis not applicable; see DESIGN.md section 4)",
 }
+TECH = {
+ "C01": "static analysis: effect (who-may-write) analysis + polynomial normal-form dataflow (per-store conservation, linear templates)",
+ "C02": "static analysis: forward relational dataflow with polynomial normal forms and linear templates",
+ "C03": "static analysis: must-pass-through on the CFG with index agreement; path-wise guard (edge removal)",
+ "C04": "static analysis: interprocedural constant / sign abstract interpretation with order facts",
+ "C05": "static analysis: interprocedural constant propagation; literal-table evaluation over 37 crops; sibling cross-check",
+ "C06": "static analysis: polynomial normal forms, reaching definitions, typestate by control dependence, column/provenance agreement",
+ "C07": "static analysis: who-may-write, finite abstract-state enumeration with abstract interpretation, alias lint",
+ "C08": "static analysis: information-flow (taint) abstract interpretation of the first day of a season; alias/effect analysis",
+ "C09": "static analysis: must-pass-through / control dependence on the driver CFG (sibling drivers)",
+ "C10": "static analysis: audit of process-global mutable state via effect analysis; nondeterminism-source lint",
+ "C11": "static analysis: who-may-write on user-owned access paths with re-checked idempotence conditions; kind typestate",
+ "C12": "static analysis: flow-sensitive access-path effect analysis (who-may-write) over the call graph below the step",
+ "C13": "static analysis: constant propagation, reaching definitions + dominance, normal-form equivalence of the cap, index-space agreement",
+ "C14": "static analysis: access-path read discipline + control dependence + dominance",
+ "C15": "static analysis: provenance of positional reads (access paths) and structural row-selection rule",
+ "C16": "static analysis: definite assignment by abstract interpretation over finite flag domains and order abstraction; table evaluation; sibling cross-check",
+ "C18": "static analysis: literal-table checks, order-fact abstract interpretation, column def-use graph",
+ "C19": "static analysis: interprocedural constant propagation; effect ordering on the step CFG; index agreement",
+ "C20": "static analysis: must-pass-through switch guards followed through formals; normal forms / constant propagation at neutral values",
+}
 checks, na = [], []
 for p in props:
     pid = p["id"]
@@ -29,7 +50,7 @@ for p in props:
                                         "trusted base = CPython ast parser, the checker itself, documented flag domains and the named "
                                         "assumptions echoed in the evidence file; numpy/pandas semantics per the view/copy table. "
                                         "Clauses marked NOT decided are not claimed."),
-        "technique": claim.get("technique", "static analysis"),
+        "technique": claim.get("technique", TECH.get(pid, "static analysis")),
     })
 m = {"version": 1, "setup_cmd": "true",
      "hooks": {"guard": "AQUACROP_VERIF", "enable": "none needed: the checks only parse /repo's sources (static analysis); no hook exists in /repo",
